@@ -25,6 +25,7 @@ func contractTags(fc *FuncContract) []string {
 	}
 	add(fc.Safety)
 	add(fc.Term)
+	add(fc.Owns)
 	for _, cs := range fc.Calls {
 		for _, a := range cs.Asserts {
 			add(a.Tags)
@@ -43,7 +44,7 @@ func contractTags(fc *FuncContract) []string {
 
 func newExec(p *Prog, name string) *Exec {
 	e := &Exec{P: p, S: newScript(), name: name, notes: map[string]bool{}, unsup: map[string]bool{}, arrSort: map[string]string{},
-		callSeen: map[string]int{}, closures: map[string]closureInfo{}, usedLemmas: map[string]bool{}, measures: map[int]string{}, prov: map[string]string{}, specCache: map[string]Val{}, siteVars: map[string]Val{}, forallVars: map[string]Val{}, fvDeref: map[*ssa.FreeVar]Val{}, unboundSites: map[string]bool{}, opaqueSig: map[string]string{}, specCache2: map[string][]specEntry{}, ldCache: map[string]string{}}
+		callSeen: map[string]int{}, closures: map[string]closureInfo{}, usedLemmas: map[string]bool{}, measures: map[int]string{}, prov: map[string]string{}, specCache: map[string]Val{}, siteVars: map[string]Val{}, forallVars: map[string]Val{}, fvDeref: map[*ssa.FreeVar]Val{}, unboundSites: map[string]bool{}, opaqueSig: map[string]string{}, specCache2: map[string][]specEntry{}, ldCache: map[string]string{}, aliasOf: map[string][]aliasEdge{}}
 	e.S.DeclareFun("typeof", []string{"Int"}, "Int")
 	e.S.Assert(sEq(sx("typeof", "0"), "0"))
 	e.S.Declare("A0", "Int")
@@ -91,9 +92,19 @@ func (e *Exec) initState() *State {
 func verifyFunc(p *Prog, fn *ssa.Function, fc *FuncContract, cover bool) (e *Exec) {
 	e = newExec(p, dispNameFC(fn, fc))
 	e.fn, e.fc, e.cover = fn, fc, cover
+	verifying = true
 	defer func() {
+		verifying = false
 		if r := recover(); r != nil {
-			e.unsupported("%s: engine panic: %v", e.name, r)
+			// the contract no longer fits the function (a name it mentions is gone, a
+			// value changed its type, ...): nothing about this function is decided
+			msg := fmt.Sprint(r)
+			if ab, ok := r.(engineAbort); ok {
+				msg = ab.msg
+			}
+			st := &State{reach: "true"}
+			o := e.obligeNoAssume(st, "contract:binding", "binding", contractTags(fc), "false", "the contract of this function can no longer be interpreted against its code: "+msg, fn.Pos())
+			o.Pos = posOf(p, fn.Pos())
 		}
 	}()
 	e.computeOrdinals()
@@ -392,6 +403,11 @@ func generate(p *Prog, prop string, cover bool) *RunResult {
 	}
 	sort.Strings(rr.Notes)
 	sort.Strings(rr.Unsupported)
+	for _, n := range sortedKeys(p.CS.Externs) {
+		if xf := p.CS.Externs[n]; xf.Used {
+			rr.Trusted = append(rr.Trusted, "extern "+n+": assumed contract of a function outside the module")
+		}
+	}
 	return rr
 }
 
